@@ -95,6 +95,9 @@ XRUN_BYTECODE = {'suite': 'bytecode', 'claim': 'BytecodeMapped (borrowed and own
                           '(pushes, stack / alu / pred ops, JumpIf, HaltIf, Halt, Repeat, RepeatEnd, memory ops, Compute, ComputeEnd) x 3 initial stacks, gas limit 300'}
 PROPS = {
     'C05': {'level': 'proof', 'verus_units': ['vm_core'], 'kani': [KANI_VM_OPS_ALL],
+            'probes': [{'name': 'probe-breadth', 'input': 'ops [Push(2^40), Compute, ComputeEnd], gas limit 1000, op cost 1',
+                        'claim': 'a Compute whose breadth is far beyond what the gas limit can pay for returns a typed error or success; it does not exhaust memory or time',
+                        'bound': 'one input, run under a 3 GB address-space limit and a 20 s time limit'}],
             'explanation': 'VM totality / resource bounds: every function of the synchronous VM core carries vm_wf-style '
                            'pre/postconditions and is verified by Verus, which also generates the no-overflow / in-bounds / no-panic goals.'},
     'C08': {'level': 'proof', 'verus_units': ['vm_core'], 'kani': [KANI_VM_OPS_DATA],
